@@ -24,6 +24,18 @@ inductive Cell where
 
 abbrev Assoc := List (String × Val)
 
+/-- what is left of the command-line operands: a file with its remaining records, or a `var=value` assignment that
+takes effect when it is reached (POSIX: "such an assignment shall occur just prior to the processing of the file
+that follows it"; after the last file: before the END actions) -/
+inductive Pend where
+  | file (name : String) (recs : List String)
+  | assign (x : String) (v : String)
+  deriving Repr, DecidableEq, Inhabited
+
+def Pend.isFile : Pend → Bool
+  | .file _ _ => true
+  | .assign _ _ => false
+
 structure St where
   funcs : List Func := []
   globals : List (String × Cell) := []
@@ -43,7 +55,10 @@ structure St where
   subsep : String := "\x1c"
   filename : String := ""
   /-- main input: remaining files with their remaining records -/
-  pending : List (String × List String) := []
+  pending : List Pend := []
+  /-- a command-line assignment could not be carried out (array name, value outside the profile): the run is
+  reported as outside the profile -/
+  fault : Bool := false
   /-- has the head of `pending` been opened (FILENAME set, FNR reset)? -/
   headOpen : Bool := false
   /-- files `getline < name` can open -/
@@ -140,7 +155,7 @@ def setNF (n : Int) : M Unit := fun s =>
 /-! ## variables -/
 
 def unsupportedSpecials : List String :=
-  ["RS", "CONVFMT", "OFMT", "ENVIRON", "ARGC", "ARGV", "RSTART", "RLENGTH"]
+  ["RS", "ENVIRON", "ARGC", "ARGV"]
 
 def readSpecial (x : String) (s : St) : Option Val :=
   if x == "NF" then some (.num s.fields.length)
@@ -235,19 +250,38 @@ def writeLoc : Loc → Val → M Unit
   | .fld i, v => setField i v
   | .elem id key, v => fun s => .ok () { s with arrays := s.arrays.set id (setAssoc key v (getArr id s)) }
 
+/-- referencing an lvalue creates a missing array element even when nothing is stored afterwards
+(`getline A[k] < file` that fails or hits end of file: gawk and mawk agree) -/
+def touchLoc : Loc → M Unit
+  | .elem id key => do
+    let _ ← readLoc (.elem id key)
+    pure ()
+  | _ => pure ()
+
 def subscript (sep : String) (vs : List Val) : String := joinWith sep (vs.map toStr)
 
 /-! ## input -/
 
-/-- next record of the main input (command-line files in order, or standard input).  Opening a file sets
-FILENAME and resets FNR; delivering a record increments NR and FNR.  Does not touch `$0`. -/
-def readMain : List (String × List String) → Bool → St → Option String × St
+/-- a command-line assignment (`-v var=value` before BEGIN, a `var=value` operand when it is reached): the GLOBAL
+variable — never a local of a function that happens to be active — receives the value as a numeric string when it
+looks numeric (escape sequences have already been interpreted) -/
+def assignGlobal (x v : String) (s : St) : St :=
+  match writeVar x (mkInput v) { s with locals := [] } with
+  | .ok _ s' => { s' with locals := s.locals }
+  | .exit _ s' => { s' with locals := s.locals }
+  | .err _ => { s with fault := true }
+
+/-- next record of the main input (command-line operands in order, or standard input when no file is named).
+Opening a file sets FILENAME and resets FNR; delivering a record increments NR and FNR; an assignment operand
+is carried out when it is reached.  Does not touch `$0`. -/
+def readMain : List Pend → Bool → St → Option String × St
   | [], _, s => (none, { s with pending := [], headOpen := false })
-  | (name, recs) :: rest, isOpen, s =>
+  | .assign x v :: rest, _, s => readMain rest false (assignGlobal x v s)
+  | .file name recs :: rest, isOpen, s =>
     let s := if isOpen then s else { s with filename := name, fnr := 0 }
     match recs with
     | [] => readMain rest false s
-    | r :: rs => (some r, { s with pending := (name, rs) :: rest, headOpen := true,
+    | r :: rs => (some r, { s with pending := .file name rs :: rest, headOpen := true,
                                    nr := s.nr + 1, fnr := s.fnr + 1 })
 
 def getlineMain (s : St) : Option String × St := readMain s.pending s.headOpen s
@@ -461,6 +495,28 @@ def eval : Nat → Expr → M Val
         writeLoc loc (.str res.2)
         pure (.num res.1)
       else pure (.num 0)
+    | .substRe g re repl target => do
+      let r ← eval fuel repl
+      let loc ← (match target with
+        | none => (pure (Loc.fld 0) : M Loc)
+        | some t => evalLoc fuel t)
+      let old ← readLoc loc
+      let res ← liftOpt "sub/gsub: empty match or replacement outside the profile" (substRegex g re (toStr r) (toStr old))
+      if res.1 > 0 then do
+        writeLoc loc (.str res.2)
+        pure (.num res.1)
+      else pure (.num 0)
+    | .matchFn se re => do
+      let v ← eval fuel se
+      match findMatch re (toStr v) with
+      | some (st, n) => do
+        writeVar "RSTART" (.num (st + 1 : Nat))
+        writeVar "RLENGTH" (.num (n : Nat))
+        pure (.num (st + 1 : Nat))
+      | none => do
+        writeVar "RSTART" (.num 0)
+        writeVar "RLENGTH" (.num (-1))
+        pure (.num 0)
     | .getline lv file =>
       match file with
       | none =>
@@ -471,6 +527,7 @@ def eval : Nat → Expr → M Val
           | (some r, s') => (do setRecord r; pure (.num 1) : M Val) s'
         | some l => do
           let loc ← evalLoc fuel l
+          touchLoc loc
           fun s =>
             match getlineMain s with
             | (none, s') => .ok (.num 0) s'
@@ -485,6 +542,7 @@ def eval : Nat → Expr → M Val
           | .got r s' => (do setRecord r; pure (.num 1) : M Val) s'
         | some l => do
           let loc ← evalLoc fuel l
+          touchLoc loc
           fun s =>
             match readFile (toStr fv) s with
             | .noFile => .ok (.num (-1)) s
